@@ -95,6 +95,15 @@ class ResourceTracker(_ResourceTracker):
         self.ensure_running()
         self._send("MAYBE_UNLINK", name, rtype)
 
+    def _send(self, cmd, name, rtype):
+        # The tracker reads its requests line by line: a name holding a
+        # newline would be executed as two requests.
+        if "\n" in name:
+            raise ValueError(
+                f"cannot track a resource whose name contains a newline: {name!r}"
+            )
+        super()._send(cmd, name, rtype)
+
     def ensure_running(self):
         """Make sure that resource tracker process is running.
 
